@@ -314,13 +314,14 @@ func RebuiltTables(plan []string) []string {
 // input is outside what Atlas supports (→ out_of_domain, never "held" or "violated").
 func Unsupported(err string) bool {
 	l := strings.ToLower(err)
-	for _, s := range []string{"unsupported", "not supported", "duplicate changes for column", "unexpected drop column"} {
-		if strings.Contains(l, s) {
-			return true
-		}
+	if strings.Contains(l, "scan error") { // database/sql's own "converting … is unsupported"
+		return false
 	}
-	return false
+	return reUnsupported.MatchString(l)
 }
+
+// the explicit refusals of Atlas's differ and planner
+var reUnsupported = regexp.MustCompile(`unsupported (change|type|index|attribute|expression|default|table|column)|is not supported|not supported by|duplicate changes for column|unexpected drop column`)
 
 var (
 	reQuoted = regexp.MustCompile("\"[^\"]*\"|`[^`]*`|'[^']*'")
